@@ -513,4 +513,57 @@ theorem svcAdd_some {ss : Bool} {x : Entry} {l : List Svc} {r : Svc → Option E
       · simp only [hnm, if_false] at h ⊢
         exact ih h
 
+
+theorem svcAdd_mono {ss : Bool} {x : Entry} (l : List Svc) (r : Svc → Option Entry) (pres : List Svc) (k : Svc)
+    (hk : k ∈ pres) : k ∈ (svcAdd ss x l r pres).2 := by
+  induction l generalizing r pres with
+  | nil => simpa [svcAdd] using hk
+  | cons y ys ih =>
+    simp only [svcAdd]
+    split
+    · exact ih _ _ (List.mem_append_left _ hk)
+    · split
+      · exact ih _ _ (List.mem_append_left _ hk)
+      · exact ih _ _ hk
+
+/-- the add phase never removes a key -/
+theorem svcAdd_keeps {ss : Bool} {x : Entry} (l : List Svc) (r : Svc → Option Entry) (pres : List Svc) (k : Svc)
+    (h : (r k).isSome = true) : ((svcAdd ss x l r pres).1 k).isSome = true := by
+  induction l generalizing r pres with
+  | nil => simpa [svcAdd] using h
+  | cons y ys ih =>
+    simp only [svcAdd]
+    split
+    · apply ih; unfold upd; split <;> simp [h]
+    · split
+      · apply ih; cases ss
+        · simpa using h
+        · simp only [if_true]; unfold upd; split <;> simp [h]
+      · exact ih _ _ h
+
+/-- a listed key that the same target already owns ends up in the present list (so the delete phase skips it) -/
+theorem svcAdd_present {ss : Bool} {x : Entry} (l : List Svc) (r : Svc → Option Entry) (pres : List Svc) (k : Svc)
+    (hk : k ∈ l) (h : ∃ e, r k = some e ∧ e.desc.name = x.desc.name) : k ∈ (svcAdd ss x l r pres).2 := by
+  induction l generalizing r pres with
+  | nil => cases hk
+  | cons y ys ih =>
+    obtain ⟨e, he, hn⟩ := h
+    simp only [svcAdd]
+    by_cases hy : k = y
+    · subst hy
+      simp only [he, hn, if_true]
+      exact svcAdd_mono _ _ _ _ (by simp)
+    · have hk' : k ∈ ys := by
+        rcases List.mem_cons.1 hk with h1 | h1
+        · exact absurd h1 hy
+        · exact h1
+      split
+      · exact ih _ _ hk' ⟨e, by simp [upd, hy, he], hn⟩
+      · split
+        · refine ih _ _ hk' ⟨e, ?_, hn⟩
+          cases ss
+          · simpa using he
+          · simp [upd, hy, he]
+        · exact ih _ _ hk' ⟨e, he, hn⟩
+
 end GB.C11
